@@ -3,15 +3,15 @@
 # checks (all 20 by default) against it. Every check must stay silent (exit 0). /repo is not touched.
 d="$1"; shift
 props="$*"; [ -z "$props" ] && props=$(seq -f "C%02g" 1 20)
-wt=/tmp/seedrepo
+wt="${VERIF_SEED_WT:-/tmp/seedrepo}"
 git -C /repo worktree remove --force "$wt" >/dev/null 2>&1
 git -C /repo worktree add -q --detach "$wt" HEAD || exit 2
-( cd "$wt" && git apply "$d/patch.diff" ) || { echo "$(basename $d): patch does not apply"; git -C /repo worktree remove --force "$wt"; exit 2; }
-lib=$(cd "$wt" && CARGO_TARGET_DIR=/tmp/cs-target cargo test --offline --lib 2>&1 | grep "test result" | head -1 | cut -c1-40)
+( cd "$wt" && { git apply "$d/patch.diff" 2>/dev/null || git apply --3way "$d/patch.diff" >/dev/null 2>&1; } ) || { echo "$(basename $d): patch does not apply"; git -C /repo worktree remove --force "$wt"; exit 2; }
+lib=$(cd "$wt" && CARGO_TARGET_DIR="${VERIF_CS_TARGET:-/tmp/cs-target}" cargo test --offline --lib 2>&1 | grep "test result" | head -1 | cut -c1-40)
 echo "$(basename $d): unit tests [$lib]"
 bad=0
 for p in $props; do
-  out=$(cd /verif && VERIF_REPO="$wt" VERIF_OUT_DIR=/tmp/benignrun ./check "$p" quick 2>&1); code=$?
+  out=$(cd /verif && VERIF_REPO="$wt" VERIF_OUT_DIR="${VERIF_SEED_OUT:-/tmp/benignrun}" ./check "$p" quick 2>&1); code=$?
   if [ $code -ne 0 ]; then
     bad=1
     echo "$(basename $d) vs $p: exit=$code"
